@@ -157,13 +157,9 @@ func defaultValueForTypeRec(schemas ast.Schemas, typeDef ast.Type, importModule 
 
 		referredObj, found := schemas.LocateObject(ref.ReferredPkg, ref.ReferredType)
 		if found && referredObj.Type.IsEnum() {
-			enumName := tools.UpperSnakeCase(referredObj.Type.AsEnum().Values[0].Name)
-			for _, enumValue := range referredObj.Type.AsEnum().Values {
-				if enumValue.Value == typeDef.Default {
-					enumName = tools.UpperSnakeCase(enumValue.Name)
-					break
-				}
-			}
+			// falls back to the first member
+			member, _ := referredObj.Type.AsEnum().MemberForValue(typeDef.Default)
+			enumName := tools.UpperSnakeCase(member.Name)
 
 			objectName := tools.UpperCamelCase(referredObj.Name)
 
